@@ -397,7 +397,7 @@ class FunctionLogger:
 
         else:
             # check if the noise is heteroskedastic
-            if fsd is not None:
+            if fsd is not None and self.he_noise_flag:
                 # Like in PyVBMC check if the point has already been evaluated and estimate the noise with new observations
                 duplicate_flag = self.X == x
                 if np.any(duplicate_flag.all(axis=1)):
